@@ -226,6 +226,7 @@ func (r *Report) Finish(verifDir string, seed int64) int {
 		"per_rule":             perRuleCount,
 		"analysed":             r.Analysed,
 		"samples":              samples,
+		"all_obligations":      allKeys(r.Obls),
 		"evaluations":          total,
 		"distinct_nontrivial":  distinctKeys(r.Obls),
 		"rule":                 "one case = one obligation (rule instance on a concrete construct of the current tree); distinct = distinct rule|construct keys; role/anchor obligations are excluded from distinct_nontrivial",
@@ -284,4 +285,16 @@ func distinctKeys(obls []*Obligation) int {
 		m[o.Key] = true
 	}
 	return len(m)
+}
+
+func allKeys(obls []*Obligation) []string {
+	out := make([]string, 0, len(obls))
+	for _, o := range obls {
+		st := string(o.Status)
+		if o.Known {
+			st = "known_finding"
+		}
+		out = append(out, o.Key+" = "+st)
+	}
+	return out
 }
